@@ -65,20 +65,23 @@ SKIP_PATTERNS = [   # (regex on key, switch) for keys whose first frame depends 
     (r"asn1_tag_name", "tagname"),
     (r"pem_read|base64_decode", "pem"),
     (r"check/pem/", "pem"),
-    (r"tls13_server_hello_extensions_get", "sh13exts"),
     (r"tls_process_client_hello_exts|tls13_process_client_hello_exts|check/tls/ch", "chexts"),
     (r"tls_process_client_(ec_point_formats|supported_groups|signature_algorithms)|tls_(ec_point_formats|supported_groups|signature_algorithms)_ext_to_bytes", "chexts"),
-    (r"tls13_record_get_handshake_certificate_verify|tls13_verify_certificate_verify", "cv13"),
+    (r"tls13_record_get_handshake_certificate_verify|tls13_verify_certificate_verify|check/tls13/certificate_verify_outputs", "cv13"),
     (r"tls_record_get_handshake_certificate|tls13_process_certificate_list|x509_cert_to_der|asn1_any_to_der|check/peer/(server|client)_certs_len|check/peer/ca_certs|check/peer/own_certs|check/tls/certs_len", "certs2048"),
     (r"tls12_do_accept|tls_record_set_handshake_server_hello", "ch12noexts"),
     (r"hex2bin", "hexodd"),
+    (r"msan/x509_ext_print\.(len|p)|x509_freshest_crl_print|x509_distribution_points_print", "iap"),
+    (r"msan/tls13_do_(connect|accept)\.(server|client)_ecdhe_public", "ks13"),
+    (r"msan/tls12_do_accept\.server_exts_len", "ch12noexts"),
+    (r"msan/x509_uri_as_distribution_points?_from_der", "dpuri"),
     (r"x509_access_method_from_der", "aia"),
 ]
-ALL_SWITCHES = ["tagname", "oid33", "seqint", "pem", "sh13exts", "chexts", "cv13", "certs2048", "ch12noexts", "hexodd", "aia"]
+ALL_SWITCHES = ["tagname", "oid33", "seqint", "pem", "ks13", "iap", "chexts", "cv13", "certs2048", "ch12noexts", "hexodd", "aia", "dpuri"]
 
 GENERIC_FRAME = re.compile(r"^(tls_u?int\d*(array)?_(from|to)_bytes|tls_array_(from|to)_bytes|tls_length_is_zero|"
                            r"asn1_(length|tag|type|any|nonempty_type|any_type|data|header)_\w+|asn1_length_\w+|format_(bytes|print)|"
-                           r"sm3_\w+|sm4_\w+|gmssl_\w+|mem\w+|gcm_\w+|ghash\w*|sm2_z256_\w+|sm9_z256_\w+|base64_\w+|hex2bin)$")
+                           r"sm3_\w+|sm4_\w+|gmssl_\w+|mem\w+|gcm_\w+|ghash\w*|sm2_z256_\w+|sm9_z256_\w+|base64_\w+)$")
 
 
 def _skip_switch(key):
@@ -226,7 +229,7 @@ def crash_key(text):
         return "check/" + m.group(1), m.group(0)[:300]
     kind = None
     summary = None
-    m = re.search(r"ERROR: AddressSanitizer: ([\w-]+)[^\n]*", text)
+    m = re.search(r"ERROR: (?:AddressSanitizer|MemorySanitizer): ([\w-]+)[^\n]*", text)
     if m:
         kind, summary = m.group(1), m.group(0)
     if kind is None:
@@ -272,6 +275,11 @@ def crash_key(text):
                     name = fr[0] + "<" + f
                     break
     if kind == "msan":
+        # the origin (which variable was never written) identifies the defect better than the place of first use
+        m = re.search(r"created by an allocation of '([^']+)' in the stack frame of function '(\w+)'\s*\n\s*#0 0x[0-9a-f]+ in \S+ (\S+)", text)
+        if m and "/src/" in m.group(3) and "/fuzz/" not in m.group(3):
+            return "msan/%s.%s" % (m.group(2), m.group(1)), summary
+        # origin in the harness (an output parameter the library reads before writing it) or on the heap: first use
         return "msan/" + name, summary
     if kind == "hang":
         return "hang/" + name, summary
@@ -379,7 +387,7 @@ def campaign(target, inst, budget, lf_seed, skip0, known_keys, jobs_note=None):
     """One libFuzzer instance with restarts. Returns a result dict."""
     cfg = TARGETS[target]
     exe = os.path.join(_bindir(), target)
-    wd = os.path.join(_work(), "run", "%s.%d" % (target, inst))
+    wd = os.path.join(_work(), "run-%d" % os.getpid(), "%s.%d" % (target, inst))
     shutil.rmtree(wd, ignore_errors=True)
     corpus = os.path.join(wd, "corpus")
     adir = os.path.join(wd, "art")
@@ -639,6 +647,7 @@ def fuzz(tier, seed, info):
     with cf.ThreadPoolExecutor(max_workers=jobs) as ex:
         accs = list(ex.map(_acc, results))
     per_target = {}
+    summary_all = {}
     for r, acc in accs:
         t = r["target"]
         pt = per_target.setdefault(t, dict(execs=0, corpus=0, accepted_units=0, accepted_execs=0, excluded_execs=0, completed_handshakes=0,
@@ -670,7 +679,24 @@ def fuzz(tier, seed, info):
             classes[t + ":excluded-by-FZ_SKIP"] = pt["excluded_execs"]
         if TARGETS[t].get("peer"):
             classes[t + ":completed-handshakes"] = pt["completed_handshakes"]
-        samples.append(dict(target=t, **{k: (round(v, 1) if isinstance(v, float) else v) for k, v in pt.items()}))
+        summary_all[t] = {k: (round(v, 1) if isinstance(v, float) else v) for k, v in pt.items()}
+    samples.append({"per_target": summary_all})
+    # verbatim cases: the largest accepted corpus unit of a few targets (hex, cut at 256 bytes)
+    for r, acc in accs:
+        if len(samples) >= 6 or r["inst"] != 0 or r["target"] not in ("fz_x509", "fz_cms", "fz_tlsrec", "fz_peer_server_tls12", "fz_peer_client_tlcp"):
+            continue
+        best = None
+        for fn in sorted(os.listdir(r["corpus"])):
+            fp = os.path.join(r["corpus"], fn)
+            try:
+                data = open(fp, "rb").read()
+            except OSError:
+                continue
+            if acc.get(_h8(data)) and (best is None or len(data) > len(best)):
+                best = data
+        if best is not None:
+            samples.append({"target": r["target"], "size": len(best), "accepted": True, "unit_hex": best[:256].hex()})
+    shutil.rmtree(os.path.join(_work(), "run-%d" % os.getpid()), ignore_errors=True)   # artifacts were copied to replays/
     notes["skip_switches_from_known_findings"] = ",".join(sorted(base_skip)) or "-"
     notes["instances"] = len(insts)
     notes["seconds_per_instance"] = per
@@ -680,7 +706,7 @@ def fuzz(tier, seed, info):
 
 
 def _msan_inputs(target, tier):
-    dirs = [os.path.join(_gendir(), "seeds", target), os.path.join(REGRESS, target), os.path.join(_work(), "last_corpus", target)]
+    dirs = [os.path.join(_gendir(), "seeds", target), os.path.join(_work(), "last_corpus", target)]
     seen, out = set(), []
     for d in dirs:
         if os.path.isdir(d):
@@ -758,11 +784,35 @@ def msan(tier, seed, info):
         if sw:
             skip.add(sw)
     failures, known_lines, known_hits, notes, classes = [], [], {}, {}, {}
-    with cf.ThreadPoolExecutor(max_workers=jobs) as ex:
-        res = list(ex.map(lambda t: msan_target(t, tier, skip), list(TARGETS)))
     evaluations = 0
     reported = set()
     nt = []
+    # 1. regress inputs, one process each, no FZ_SKIP: each must pass or re-confirm a recorded finding
+    reg = _regress_files()
+    with cf.ThreadPoolExecutor(max_workers=jobs) as ex:
+        rres = list(ex.map(lambda tp: (tp, run_one(tp[0], tp[1], (), msan=True)), reg))
+    evaluations += len(reg)
+    for (t, p), (crashed, key, summary, tail) in rres:
+        if not crashed:
+            continue
+        tr = triage(t, p, (), msan=True)
+        if not tr["stable"]:
+            notes["unstable-msan:" + os.path.basename(p)] = str(tr.get("keys"))
+            continue
+        key = tr["key"]
+        if key in known:
+            known_hits[key] = known_hits.get(key, 0) + 1
+            known_lines.append("KNOWN-FINDING: property=C06 %s [%s]" % (known[key].get("what", key), key))
+        elif (key.startswith("msan/") or key.startswith("check/tls13/")) and key not in reported:
+            # ASan-class keys of regress inputs are the fuzz task's business (reported there)
+            reported.add(key)
+            rp = save_replay(t, key, p, tr["summary"], tr["tail"], kind="msan")
+            failures.append({"msg": "%s (MemorySanitizer, regress input %s): %s\n%s" % (t, os.path.basename(p), key, (tr["tail"] or "")[:1500]),
+                             "replay": rp, "key": key})
+    notes["regress_inputs"] = len(reg)
+    # 2. seed corpus and the corpora of the last campaign
+    with cf.ThreadPoolExecutor(max_workers=jobs) as ex:
+        res = list(ex.map(lambda t: msan_target(t, tier, skip), list(TARGETS)))
     for r in res:
         t = r["target"]
         evaluations += r["execs"]
@@ -783,12 +833,23 @@ def msan(tier, seed, info):
                 known_hits[key] = known_hits.get(key, 0) + 1
                 known_lines.append("KNOWN-FINDING: property=C06 %s [%s]" % (known[key].get("what", key), key))
                 continue
+            if not (key.startswith("msan/") or key.startswith("check/")):
+                # not a MemorySanitizer report (e.g. a SEGV that follows an out-of-bounds read MSan cannot see): the ASan
+                # campaign is the oracle for that class; keep a note
+                notes["msan-build-other-crash:%s" % t] = key
+                continue
             if key in reported:
                 continue
             reported.add(key)
             rp = save_replay(t, key, f["path"], tr["summary"], tr["tail"], kind="msan")
             failures.append({"msg": "%s (MemorySanitizer): %s\n%s" % (t, key, (tr["tail"] or "")[:1500]), "replay": rp, "key": key})
     notes["skip_switches_from_known_findings"] = ",".join(sorted(skip)) or "-"
+    # the generated seeds are valid objects (accepted by construction): they are the non-trivial cases of this task
+    for t in TARGETS:
+        d = os.path.join(_gendir(), "seeds", t)
+        if os.path.isdir(d):
+            for fn in sorted(os.listdir(d)):
+                nt.append(_h8(t.encode() + open(os.path.join(d, fn), "rb").read()))
     return dict(evaluations=evaluations, nt_hashes=nt, classes=classes, samples=[dict(target=r["target"], files=r["files"], wall=round(r["wall"], 1)) for r in res],
                 notes=notes, wall=time.time() - t_start, workers=min(jobs, len(TARGETS)), known_lines=known_lines, known_hits=known_hits,
                 failures=failures)
